@@ -1366,6 +1366,11 @@ class StateMachineAccessPoint(Client, ServiceAccessPoint):
             if apdu.apduInvokeID is None:
                 apdu.apduInvokeID = self.get_next_invoke_id(apdu.pduDestination)
             else:
+                # an invoke ID is one octet, refuse anything else before a
+                # transaction exists that could never put a packet together
+                if not (0 <= apdu.apduInvokeID <= 255):
+                    raise RuntimeError("invoke ID out of range")
+
                 # verify the invoke ID isn't already being used
                 for tr in self.clientTransactions:
                     if (apdu.apduInvokeID == tr.invokeID) and (apdu.pduDestination == tr.pdu_address):
